@@ -51,6 +51,10 @@ def c14_scnr2_restore_last_char(case):
                 if end not in rest and "\n" in rest and p <= e["s"]:
                     return True
                 p = t.find(start, p + 1)
+            # second trigger: behind a complete C-style comment the dedicated expression tries to go on with `[^*]/`;
+            # for '*/' '/' LF it reads the line feed, fails and is rolled back to the end of the comment
+            if (start, end) == ("/*", "*/") and t[e["s"] - 2:e["s"]] == "*/" and t[e["s"]:e["s"] + 2] == "/\n":
+                return True
     return False
 
 
